@@ -62,9 +62,11 @@ def model(shape, dt, data, yf, myf, lim, prog, scen):
     elif shape == "agg":
         spec["interactions"] = [dict(name="mix", pairs={"pa>pa": 1.0, "pa>pb": 0.5, "pb>pa": 0.2, "pb>pb": 2.0})]
         P += [p1, dict(name="foi", fmt=None, fn="SRC_POP_AVG(prev, mix, alive)", min=lo, max=hi), dict(drv, fn="foi*p1+0.02")]
+        # open-ended flow references in a model with a transfer between the populations (every flow out of a / into b, the transfer included)
+        P += [dict(name="outa", fmt=None, fn="a:"), dict(name="inb", fmt=None, fn=":b+0*a")]
         spec["transfers"] = [dict(name="mig", units="rate", pairs={"pa>pb": 0.1})]
     elif shape == "flowout":
-        P += [dict(p1, name="drv", fmt="probability", targ=True, min=lo, max=hi, myf=myf), dict(name="inc", fmt=None, fn="a:b*2"), dict(name="inc2", fmt=None, fn="inc+b:c")]
+        P += [dict(p1, name="drv", fmt="probability", targ=True, min=lo, max=hi, myf=myf), dict(name="inc", fmt=None, fn="a:b*2"), dict(name="inc2", fmt=None, fn="inc+b:c"), dict(name="outa", fmt=None, fn="a:"), dict(name="inb", fmt=None, fn=":b+0*a")]  # outa / inb: open-ended references (every flow out of a / into b, transfers between populations included)
     spec["links"].append(["a", "b", "drv"])
     if prog == "base" and shape != "flowout":
         # the program targets the data parameter at the BOTTOM of the dependency chain: everything above it must follow in the same step
